@@ -54,6 +54,8 @@ static const void* attr_ptr[MAXATTR];
 static size_t      attr_stack[MAXATTR];
 static int         n_attr;
 static int         fake_started;
+static size_t      captured_size; // size given to the real pthread_attr_setstacksize (pass-through mode)
+static int         captured_sets;
 static size_t      fake_stack;
 
 static void* (*expected_fn)(void*);
@@ -108,6 +110,7 @@ int __wrap_pthread_attr_init(pthread_attr_t* a)
     if (!r_init) {
       attr_stack[id] = FAKE_DEFAULT_STACK;
     }
+    errno = 0; // pthread functions return the error number, they do not set errno
     return r_init;
   }
   if (recording && on_main()) {
@@ -124,10 +127,13 @@ int __wrap_pthread_attr_setstacksize(pthread_attr_t* a, size_t size)
     if (!r_set) {
       attr_stack[id] = size;
     }
+    errno = 0;
     return r_set;
   }
   if (recording && on_main()) {
     rec("set(a%d,%zu)", attr_id(a), size);
+    captured_size = size;
+    ++captured_sets;
   }
   return __real_pthread_attr_setstacksize(a, size);
 }
@@ -152,6 +158,7 @@ int __wrap_pthread_create(pthread_t* t, const pthread_attr_t* a, void* (*fn)(voi
       fake_stack = a ? attr_stack[attr_id(a)] : FAKE_DEFAULT_STACK;
       *t         = pthread_self();
     }
+    errno = 0;
     return r_create;
   }
   if (recording && on_main()) {
@@ -176,6 +183,7 @@ int __wrap_pthread_join(pthread_t t, void** ret)
 {
   if (fake) {
     rec("join(%s,%s)", pthread_equal(t, expected_thread) ? "t" : "t?", ret ? "ptr" : "null");
+    errno = 0;
     return r_join;
   }
   return __real_pthread_join(t, ret);
@@ -295,7 +303,7 @@ static void run_real(size_t size, int n, long delay_us, int reverse, int open_ou
 {
   Slot* slots = (Slot*)calloc((size_t)n, sizeof(Slot));
   char  want[256];
-  int   created = 0, seq = 1;
+  int   created = 0, seq = 1, set_ge = 1;
   ZixStatus first_err = ZIX_STATUS_SUCCESS;
   alarm(120);
   snprintf(want, sizeof(want), "init(a0) set(a0,%zu) create(a0,f,arg) destroy(a0)", size);
@@ -306,10 +314,14 @@ static void run_real(size_t size, int n, long delay_us, int reverse, int open_ou
     reset_rec();
     expected_fn  = thread_fn;
     expected_arg = &slots[i];
+    captured_sets = 0;
+    captured_size = 0;
     recording    = 1;
     slots[i].st  = zix_thread_create(&slots[i].th, size, thread_fn, &slots[i]);
     recording    = 0;
     seq          = seq && !strcmp(calls, want);
+    // the attribute object must have been given at least the requested size
+    set_ge       = set_ge && captured_sets == 1 && captured_size >= size;
     if (slots[i].st == ZIX_STATUS_SUCCESS) {
       ++created;
     } else if (first_err == ZIX_STATUS_SUCCESS) {
@@ -347,11 +359,11 @@ static void run_real(size_t size, int n, long delay_us, int reverse, int open_ou
   }
   alarm(0);
   if (open_outcome) {
-    const int ok = once && arg && stack_ge && depth && visible && never_ran && joined == ZIX_STATUS_SUCCESS && seq;
-    printf("consistent=%d\n", ok);
+    const int ok = once && arg && stack_ge && depth && visible && never_ran && joined == ZIX_STATUS_SUCCESS;
+    printf("consistent=%d set_ge=%d || seq=%d\n", ok, set_ge, seq);
   } else {
-    printf("st=%s created=%d once=%d arg=%d stack_ge=%d depth=%d visible=%d joined=%s || seq=%d\n",
-           status_name(first_err), created, once, arg, stack_ge, depth, visible, status_name(joined), seq);
+    printf("st=%s created=%d once=%d arg=%d set_ge=%d stack_ge=%d depth=%d visible=%d joined=%s || seq=%d\n",
+           status_name(first_err), created, once, arg, set_ge, stack_ge, depth, visible, status_name(joined), seq);
   }
   free(slots);
 }
